@@ -1,5 +1,5 @@
 #!/bin/sh
-# usage: build.sh <variant: asan|be|tsan|fast|rpipe> <outdir>   (compiles /repo/src fresh)
+# usage: build.sh <variant: asan|be|tsan|fast|rpipe|rsink> <outdir>   (compiles /repo/src fresh)
 set -e
 V="$1"; OUT="$2"; REPO="${SBDF_REPO:-/repo}"; H="$(cd "$(dirname "$0")" && pwd)"
 mkdir -p "$OUT"
@@ -9,6 +9,7 @@ case "$V" in
   be)   CC=clang; FL="-O1 -g -fsanitize=address,undefined -fno-sanitize-recover=all -fno-omit-frame-pointer -D__sparc";;
   tsan) CC=clang; FL="-O1 -g -fsanitize=thread"; SHIM="";;
   fast) CC=gcc;   FL="-O2";;
+  rsink) CC=clang; FL="-O1 -g -fsanitize=address,undefined -fno-sanitize-recover=all -fno-omit-frame-pointer"; SHIM="";;
   rpipe) CC=clang; FL="-O1 -g -fsanitize=address,undefined -fno-sanitize-recover=all -fno-omit-frame-pointer"; SHIM="";;
   *) echo "bad variant"; exit 2;;
 esac
